@@ -70,6 +70,10 @@ func FindGrouping(n Node, name string, seen map[string]bool) *Grouping {
 				if pname == name {
 					continue
 				}
+				if i.Module == nil {
+					// Not linked (yet): there is nothing to search.
+					continue
+				}
 				if g := FindGrouping(i.Module, pname, seen); g != nil {
 					return g
 				}
@@ -78,6 +82,10 @@ func FindGrouping(n Node, name string, seen map[string]bool) *Grouping {
 		v = e.FieldByName("Include")
 		if v.IsValid() {
 			for _, i := range v.Interface().([]*Include) {
+				if i.Module == nil {
+					// Not linked (yet): there is nothing to search.
+					continue
+				}
 				if seen[i.Module.Name] {
 					// Prevent infinite loops in the case that we have already looked at
 					// this submodule. This occurs where submodules have include statements
